@@ -5,12 +5,16 @@
   Core-only imports (it links as a `lean_exe`).
 -/
 import Driver.Fmt
+import Driver.Alg
 
 open Lean Driver
 
 def dispatch (op : String) (inp out : Json) : Json :=
   match op with
   | "value" => runValue inp out
+  | "invoke" => runInvoke inp out
+  | "history" => runHistory inp out
+  | "repeat" => runRepeat inp out
   | _ => Json.mkObj [("same", Json.bool false), ("diff", Json.str s!"unknown op {op}"), ("fails", Json.arr #[])]
 
 partial def loop (h : IO.FS.Stream) (o : IO.FS.Stream) : IO Unit := do
